@@ -2,6 +2,8 @@
 # usage: ./check.sh <ID> quick|thorough        run one property check against /repo's working tree
 #        ./check.sh <ID> --replay <file>       re-run the oracle on one saved case
 # exit 0: property held on everything explored; 1: VIOLATION line printed; 2: inconclusive / harness problem
+# Optional (sensitivity self-test only): VERIF_REPO=<copy of /repo> builds against that copy via a cargo
+# path override into VERIF_TARGET and writes evidence under VERIF_OUT instead of this directory.
 set -u
 HERE="$(cd "$(dirname "$0")" && pwd)"
 export VERIF_DIR="$HERE"
@@ -10,30 +12,40 @@ export CARGO_NET_OFFLINE=true
 export RUST_BACKTRACE=0
 ID="${1:-}"
 [ -n "$ID" ] || { echo "usage: check.sh <ID> quick|thorough"; exit 2; }
-mkdir -p "$HERE/evidence" "$HERE/harness/target"
-LOG="$HERE/harness/target/build-$$.log"
-if ! cargo build --quiet --profile checked >"$LOG" 2>&1; then
-  # Does /repo itself still compile? If yes the harness is at fault; either way this is not a property violation.
+CARGO_EXTRA=()
+if [ -n "${VERIF_REPO:-}" ]; then
+  export VERIF_TARGET="${VERIF_TARGET:-/tmp/asemut-target}"
+  export VERIF_OUT="${VERIF_OUT:-/tmp/asemut-out}"
+  CARGO_EXTRA=(--config "paths=[\"$VERIF_REPO\"]")
+else
+  export VERIF_TARGET="$HERE/harness/target"
+  export VERIF_OUT="${VERIF_OUT:-$HERE}"
+fi
+mkdir -p "$VERIF_OUT/evidence" "$VERIF_TARGET"
+LOG="$VERIF_TARGET/build-$$.log"
+build() { cargo build --quiet --profile "$1" --target-dir "$VERIF_TARGET" "${CARGO_EXTRA[@]}" >"$LOG" 2>&1; }
+if ! build checked; then
+  # a build failure (of /repo or of the harness) is never a property violation
   echo "INCONCLUSIVE property=$ID reason=harness-or-repo-build-failed (see below)"
-  tail -40 "$LOG"
+  grep -E "^error" -A 12 "$LOG" | head -60
   rm -f "$LOG"
   exit 2
 fi
-rm -f "$LOG"
 if [ "$ID" = "C16" ] || [ "$ID" = "c16" ]; then
   # extra build profiles for the cross-profile differential, and the Send+Sync crate
   for prof in fast dev0; do
-    if ! cargo build --quiet --profile $prof >"$LOG" 2>&1; then
-      echo "INCONCLUSIVE property=$ID reason=profile-$prof-build-failed"; tail -20 "$LOG"; rm -f "$LOG"; exit 2
+    if ! build $prof; then
+      echo "INCONCLUSIVE property=$ID reason=profile-$prof-build-failed"; grep -E "^error" -A 12 "$LOG" | head -40; rm -f "$LOG"; exit 2
     fi
   done
-  TLOG="$HERE/harness/target/c16-traits.log"
-  if (cd c16_traits && cargo check --quiet --target-dir ../target/c16 >"$TLOG" 2>&1); then
+  TLOG="$VERIF_TARGET/c16-traits.log"
+  if (cd c16_traits && cargo check --quiet --target-dir "$VERIF_TARGET/c16" "${CARGO_EXTRA[@]}" >"$TLOG" 2>&1); then
     export C16_TRAITS=ok
   elif grep -q -E "cannot be (sent|shared) between threads safely" "$TLOG"; then
     export C16_TRAITS="fail:$TLOG"
   else
-    echo "INCONCLUSIVE property=$ID reason=c16_traits-crate-build-failed"; tail -20 "$TLOG"; exit 2
+    echo "INCONCLUSIVE property=$ID reason=c16_traits-crate-build-failed"; grep -E "^error" -A 12 "$TLOG" | head -40; exit 2
   fi
 fi
-exec ./target/checked/vcheck "$@"
+rm -f "$LOG"
+exec "$VERIF_TARGET/checked/vcheck" "$@"
